@@ -234,6 +234,120 @@ Proof.
   repeat split; [exact Hx | exact Hy |]. intros d e Hd He. apply (I1 e). cbn. eapply I3; eassumption.
 Qed.
 
+(* no new duplicates: what EnableRequiredExtractors appends has pairwise different names (per list) and none
+   of them was enabled before.  fresh_inv en0 fs0 sa0 st: st extends (fs0, sa0) by x, y with that property. *)
+Definition fresh_inv (en0 : list N) (fs0 sa0 : list plugin) (st : en_state) : Prop :=
+  let '(en, fs, sa) := st in
+  exists x y, fs = fs0 ++ x /\ sa = sa0 ++ y /\ NoDup (map p_name x) /\ NoDup (map p_name y)
+    /\ (forall n, In n (map p_name x) \/ In n (map p_name y) -> In n en /\ ~ In n en0)
+    /\ (forall n, In n en0 -> In n en).
+
+Lemma NoDup_snoc (l : list N) a : NoDup l -> ~ In a l -> NoDup (l ++ [a]).
+Proof.
+  intros H Ha. induction H as [|b l Hb Hl IH]; cbn; [constructor; [intros []|constructor]|].
+  constructor.
+  - rewrite in_app_iff. intros [H1 | [H1 | []]]; [contradiction|]. subst. apply Ha. left. reflexivity.
+  - apply IH. intros H1. apply Ha. right. exact H1.
+Qed.
+
+Definition at_most (e : N) (o : list plugin) : Prop := o = [] \/ exists p, o = [p] /\ p_name p = e.
+
+Lemma names_snoc_opt (x : list plugin) e o :
+  at_most e o -> NoDup (map p_name x) -> ~ In e (map p_name x) ->
+  NoDup (map p_name (x ++ o)) /\ (forall n, In n (map p_name (x ++ o)) -> In n (map p_name x) \/ n = e).
+Proof.
+  intros [-> | [p [-> <-]]] Hn He.
+  - rewrite app_nil_r. split; [exact Hn | intros n H; left; exact H].
+  - rewrite map_app. cbn [map]. split; [apply NoDup_snoc; assumption|].
+    intros n H. apply in_app_iff in H as [H | [<- | []]]; [left; exact H | right; reflexivity].
+Qed.
+
+Lemma fresh_step en0 fs0 sa0 en x y e ox oy :
+  fresh_inv en0 fs0 sa0 (en, fs0 ++ x, sa0 ++ y) -> NoDup (map p_name x) -> NoDup (map p_name y) ->
+  (forall n, In n (map p_name x) \/ In n (map p_name y) -> In n en /\ ~ In n en0) ->
+  (forall n, In n en0 -> In n en) -> ~ In e en -> at_most e ox -> at_most e oy ->
+  fresh_inv en0 fs0 sa0 (e :: en, (fs0 ++ x) ++ ox, (sa0 ++ y) ++ oy).
+Proof.
+  intros _ Nx Ny Hxy Hen He Ox Oy.
+  assert (Hx : ~ In e (map p_name x)) by (intros Hi; apply He, (Hxy e (or_introl Hi))).
+  assert (Hy : ~ In e (map p_name y)) by (intros Hi; apply He, (Hxy e (or_intror Hi))).
+  assert (He0 : ~ In e en0) by (intros Hi; apply He, Hen, Hi).
+  destruct (names_snoc_opt x e ox Ox Nx Hx) as [Nx' Ix]. destruct (names_snoc_opt y e oy Oy Ny Hy) as [Ny' Iy].
+  exists (x ++ ox), (y ++ oy). rewrite <- !app_assoc.
+  split; [reflexivity|]. split; [reflexivity|]. split; [exact Nx'|]. split; [exact Ny'|]. split.
+  - intros n [H | H]; [apply Ix in H | apply Iy in H]; destruct H as [H | ->].
+    + destruct (Hxy n (or_introl H)) as [A B]. split; [right; exact A | exact B].
+    + split; [left; reflexivity | exact He0].
+    + destruct (Hxy n (or_intror H)) as [A B]. split; [right; exact A | exact B].
+    + split; [left; reflexivity | exact He0].
+  - intros n Hn. right. apply Hen, Hn.
+Qed.
+
+Lemma enable_names_fresh fsn san en0 fs0 sa0 : forall req st st',
+  enable_names fsn san req st = Some st' -> fresh_inv en0 fs0 sa0 st -> fresh_inv en0 fs0 sa0 st'.
+Proof.
+  induction req as [|e req IH]; intros st st' H Hinv.
+  - cbn in H. injection H as <-. exact Hinv.
+  - destruct st as [[en fs] sa]. cbn [enable_names] in H.
+    destruct (memN e en) eqn:M; [exact (IH _ _ H Hinv)|].
+    assert (He : ~ In e en) by (intros Hi; apply memN_In in Hi; congruence).
+    pose proof Hinv as Hinv0. destruct Hinv as [x [y [-> [-> [Nx [Ny [Hxy Hen]]]]]]].
+    assert (Ostep : forall ox oy, at_most e ox -> at_most e oy ->
+              fresh_inv en0 fs0 sa0 (e :: en, (fs0 ++ x) ++ ox, (sa0 ++ y) ++ oy)).
+    { intros ox oy Ox Oy. eapply fresh_step; eassumption. }
+    destruct (from_name fsn e) as [p|] eqn:E1; destruct (from_name san e) as [q|] eqn:E2; try discriminate H;
+      apply (IH _ _ H).
+    + apply Ostep; right; eexists; (split; [reflexivity | eapply from_name_exact; eassumption]).
+    + specialize (Ostep [p] []). rewrite app_nil_r in Ostep. apply Ostep; [right; eexists; split; [reflexivity | eapply from_name_exact; eassumption] | left; reflexivity].
+    + specialize (Ostep [] [q]). rewrite app_nil_r in Ostep. apply Ostep; [left; reflexivity | right; eexists; split; [reflexivity | eapply from_name_exact; eassumption]].
+Qed.
+
+Lemma enable_dets_fresh fsn san en0 fs0 sa0 : forall dets st st',
+  enable_dets fsn san dets st = Some st' -> fresh_inv en0 fs0 sa0 st -> fresh_inv en0 fs0 sa0 st'.
+Proof.
+  induction dets as [|d dets IH]; intros st st' H Hinv.
+  - cbn in H. injection H as <-. exact Hinv.
+  - cbn [enable_dets] in H. destruct (enable_names fsn san (p_required d) st) as [st1|] eqn:E; [|discriminate].
+    apply (IH _ _ H). eapply enable_names_fresh; eassumption.
+Qed.
+
+Lemma enable_required_no_new_duplicates_lemma fsn san cfg cfg' :
+  enable_required_extractors fsn san cfg = Some cfg' ->
+  exists x y, cfg_fs cfg' = cfg_fs cfg ++ x /\ cfg_sa cfg' = cfg_sa cfg ++ y
+    /\ NoDup (map p_name x) /\ NoDup (map p_name y)
+    /\ (forall n, In n (map p_name x) \/ In n (map p_name y) ->
+          ~ In n (map p_name (cfg_fs cfg) ++ map p_name (cfg_sa cfg))).
+Proof.
+  unfold enable_required_extractors.
+  destruct (enable_dets fsn san (cfg_det cfg) _) as [[[en fs] sa]|] eqn:E; [|discriminate].
+  intros H. injection H as <-. cbn [cfg_fs cfg_sa].
+  assert (Hinv : fresh_inv (map p_name (cfg_fs cfg) ++ map p_name (cfg_sa cfg)) (cfg_fs cfg) (cfg_sa cfg)
+                   (map p_name (cfg_fs cfg) ++ map p_name (cfg_sa cfg), cfg_fs cfg, cfg_sa cfg)).
+  { exists [], []. rewrite !app_nil_r. split; [reflexivity|]. split; [reflexivity|]. split; [constructor|]. split; [constructor|].
+    split; [intros n [[] | []] | intros n Hn; exact Hn]. }
+  pose proof (enable_dets_fresh _ _ _ _ _ _ _ _ E Hinv) as [x [y [-> [-> [Nx [Ny [Hxy _]]]]]]].
+  exists x, y. repeat split; try assumption. intros n Hn. apply (Hxy n Hn).
+Qed.
+
+(* in particular: duplicate-free extractor lists stay duplicate-free *)
+Lemma NoDup_app_fresh (l x : list N) : NoDup l -> NoDup x -> (forall n, In n x -> ~ In n l) -> NoDup (l ++ x).
+Proof.
+  intros Hl Hx Hd. induction Hl as [|a l Ha Hl IH]; [exact Hx|]. cbn. constructor.
+  - rewrite in_app_iff. intros [H | H]; [contradiction|]. apply (Hd a H). left. reflexivity.
+  - apply IH. intros n Hn Hin. apply (Hd n Hn). right. exact Hin.
+Qed.
+
+Lemma enable_required_keeps_nodup_lemma fsn san cfg cfg' :
+  enable_required_extractors fsn san cfg = Some cfg' ->
+  (NoDup (map p_name (cfg_fs cfg)) -> NoDup (map p_name (cfg_fs cfg')))
+  /\ (NoDup (map p_name (cfg_sa cfg)) -> NoDup (map p_name (cfg_sa cfg'))).
+Proof.
+  intros H. destruct (enable_required_no_new_duplicates_lemma _ _ _ _ H) as [x [y [-> [-> [Nx [Ny Hd]]]]]].
+  split; intros Hn; rewrite map_app; apply NoDup_app_fresh; try assumption.
+  - intros n Hx Hin. apply (Hd n (or_introl Hx)). apply in_app_iff. left. exact Hin.
+  - intros n Hy Hin. apply (Hd n (or_intror Hy)). apply in_app_iff. right. exact Hin.
+Qed.
+
 (* success: it fails only if some required name is an exact name in neither extractor table *)
 Definition resolvable (fsn san : table) (e : N) : bool :=
   match from_name fsn e, from_name san e with None, None => false | _, _ => true end.
